@@ -7,6 +7,8 @@ import GocoinV.Model.Qdb
 namespace GocoinV.Proofs.C19
 open GocoinV GocoinV.Qdb
 
+variable {eg : Bool}
+
 theorem applyAll_append (fs : FS) (a b : List Effect) : fs.applyAll (a ++ b) = (fs.applyAll a).applyAll b := by
   induction a generalizing fs with
   | nil => rfl
@@ -299,8 +301,8 @@ theorem replays_openIndex (db : DB) : Replays (openIndex db) db := by
   exact (replays_cleanupold _ _).trans ((replays_loadlog _ _).trans (replays_loaddat db))
 
 theorem openDB_replays (fs : FS) (vol load : Bool) (opts : Opts) :
-    (openDB fs vol load opts).fs = fs.applyAll ((openDB fs vol load opts).effs.map (·.2)) := by
-  have h : Replays (openDB fs vol load opts) { fs := fs, volatile := vol, opts := opts } := by
+    (openDB fs vol load opts eg).fs = fs.applyAll ((openDB fs vol load opts eg).effs.map (·.2)) := by
+  have h : Replays (openDB fs vol load opts eg) { fs := fs, volatile := vol, opts := opts, eager := eg } := by
     unfold openDB
     dsimp only
     refine Replays.trans (Replays.of_eq rfl rfl) ?_
@@ -364,12 +366,12 @@ theorem replays_step (db : DB) (op : Op) : Replays (step db op) db := by
   | reopen vol load opts =>
     show Replays (match (close db).failed with
       | some _ => close db
-      | none => { openDB (close db).fs vol load opts with
-                  effs := (close db).effs ++ (openDB (close db).fs vol load opts).effs }) db
+      | none => { openDB (close db).fs vol load opts (close db).eager with
+                  effs := (close db).effs ++ (openDB (close db).fs vol load opts (close db).eager).effs }) db
     split
     · exact replays_close db
     · refine Replays.trans ?_ (replays_close db)
-      exact ⟨(openDB (close db).fs vol load opts).effs, rfl, openDB_replays _ _ _ _⟩
+      exact ⟨(openDB (close db).fs vol load opts (close db).eager).effs, rfl, openDB_replays _ _ _ _⟩
 
 theorem replays_run (ops : List Op) (db : DB) : Replays (run db ops) db := by
   induction ops generalizing db with
